@@ -10,13 +10,13 @@ from .. import core, gen_abbr, outparse, probes, ref_tree
 
 ID = 'C15'
 RULE = ('cases = (abbreviation from a generated written tree, syntax in haml/pug/slim, indent string); trees up to depth 4 with groups, climbs, repeaters, '
-        'ids/classes (no blanks), attributes, single- and multi-line text, self-closing leaves, nameless elements with implicit names; indent in tab / 2 / 4 '
-        'blanks / "--". Three oracles per case: line-by-line header + indentation, tree-from-indentation == reference tree, == tree of the HTML rendering. '
+        'ids/classes (no blanks), attributes, single- and multi-line text, self-closing leaves, nameless elements with implicit names; indent in tab / 2 / 3 / 4 '
+        'blanks / blank+tab / "--"; 4% narrow towers 14-70 levels deep. Three oracles per case: line-by-line header + indentation, tree-from-indentation == reference tree, == tree of the HTML rendering. '
         'Non-trivial = at least two elements; distinct by (abbreviation, syntax, indent)')
 ASSUMPTIONS = ['ids and class names without blanks; no free-standing text nodes; text without line-leading "|" and without trailing " |"',
                'a leaf without text ends with the caret position: trailing blanks of a header line are ignored',
                'attribute values are printed between double quotes (attribute options are C03)']
-FLOORS = {'quick': {'case': 22000}, 'thorough': {'case': 280000}}
+FLOORS = {'quick': {'case': 22000, 'tower': 600}, 'thorough': {'case': 280000, 'tower': 9000}}
 REQUIRED_MONITORS = ['oracle:lines', 'oracle:tree-from-indent', 'oracle:tree-equals-html']
 N = {'quick': 2500, 'thorough': 19000}
 SYNTAXES = ['haml', 'pug', 'slim']
@@ -70,6 +70,19 @@ def gen(rng, depth=0, max_depth=3):
             n.tag = info
         nodes.append(n)
     return nodes
+
+
+def tower(rng, levels):
+    "narrow and very deep: thresholds of the indentation bookkeeping lie far below the depths of ordinary trees"
+    inner = gen(rng, 1, 1)
+    for _ in range(levels):
+        lvl = gen(rng, 1, 1)
+        host = lvl[rng.randrange(len(lvl))]
+        host.selfclose = False
+        host.rep = 2 if rng.random() < 0.03 else None
+        host.children = inner
+        inner = lvl
+    return inner
 
 
 def expected_lines(nodes, depth, parent, out):
@@ -261,13 +274,18 @@ def run_shard(desc, ctx):
         .add('emmet.markup.format.indent_format:push_primary_attributes').add('emmet.markup.format.indent_format:push_secondary_attributes').install()
     try:
         for i in range(desc['n']):
-            tree = gen(rng, 0, rng.choice([2, 3, 3, 4]) if rng.random() < 0.9 else rng.choice([8, 10, 12]))
+            if rng.random() < 0.04:
+                tree = tower(rng, rng.choice([14, 17, 20, 26, 33, 48, 70]))
+                ctx.ev('tower')
+            else:
+                tree = gen(rng, 0, rng.choice([2, 3, 3, 4]) if rng.random() < 0.9 else rng.choice([8, 10, 12]))
             abbr = gen_abbr.write(tree, rng)[0]
             exp = []
             expected_lines(tree, 0, None, exp)
-            if len(exp) > 120:
+            if len(exp) > 400:
                 continue
-            mon.check(abbr, exp, SYNTAXES[i % 3], rng.choice(['\t', '  ', '    ', '--']))
+            mon.check(abbr, exp, SYNTAXES[i % 3], rng.choice(['\t', '  ', '    ', '--', '\t', '  ', ' \t', '   ']))
+            ctx.state('depth', min(80, max(e['depth'] for e in exp)))
     finally:
         pr.uninstall()
     for k, v in pr.reach().items():
